@@ -78,7 +78,10 @@ def build_units(rng, units_mod, spec=None):
             out.append(Chain(unit, Fraction(1), f"r{len(out)}", 0, f"root{len(out)}"))
         else:
             p = out[parent]
-            unit = U.Unit(base_unit=p.unit, base_to_unit=(lambda x, k=k: x / k), unit_to_base=(lambda x, k=k: x * k))
+            if (len(out) + int(abs(k) * 7)) % 3 == 0:
+                unit = U.Unit(p.unit, (lambda x, k=k: x / k), (lambda x, k=k: x * k))       # positionally, in the documented order
+            else:
+                unit = U.Unit(base_unit=p.unit, base_to_unit=(lambda x, k=k: x / k), unit_to_base=(lambda x, k=k: x * k))
             desc = f"{p.desc}*{k!r}" if p.depth < 30 else f"{p.desc.split('*')[0]}*<{p.depth + 1} factors>"
             out.append(Chain(unit, p.factor * Fraction(k), p.root, p.depth + 1, desc))
     return out, plan
